@@ -56,6 +56,7 @@ fn main() {
         "taiko-replay" => taiko::replay_main(rest),
         "taiko-record" => taiko::record_main(rest),
         "taikocolour-replay" => taiko::colour_replay_main(rest),
+        "taikorhythm-replay" => taiko::rhythm_replay_main(rest),
         "stack-replay" => osustack::replay_main(rest),
         "catch-record" => catchrec::record_main(rest),
         "mods-replay" => modsrep::main(rest),
